@@ -1,2 +1,5 @@
 //! Generators: structure-aware fault operators, texts, ASTs.
 pub mod faults;
+pub mod faults_container;
+pub mod faults_struct;
+pub mod layout_c04;
